@@ -461,3 +461,4 @@ def op_sequences(vc):
 from pyvc.harness import reuse as _reuse
 _reuse("C12/create_from_prj_settings", "C11/create_from_prj_settings.id-or-its-own-missing-error")
 _reuse("C12/create_from_dev_settings", "C11/create_from_dev_settings.id-or-its-own-missing-error")
+_reuse("C07/Bec2File.blocks-keyed-by-kind", "C11/Bec2File.blocks-keyed-by-kind(never-more-than-one-block-per-kind)")
